@@ -23,7 +23,7 @@ type Ctx struct {
 	// Fail records
 	Fails []Failure
 	// Worker-local scratch the scenario may use (e.g. statistics)
-	Local any
+	Local  any
 	Worker int
 }
 
@@ -73,12 +73,12 @@ type Scenario func(c *Ctx)
 
 // Options configure an exploration.
 type Options struct {
-	Bound    int           // max number of non-zero choices; <0 = full product
-	Workers  int           // goroutines; 0 = GOMAXPROCS
-	Deadline time.Time     // zero = none; on expiry exploration stops, Exhaustive=false
-	NewLocal func() any    // per-worker scratch
-	MaxFails int           // stop collecting after this many violating vectors (default 200)
-	SplitDepth int         // prefixes up to this length are handed to other workers (default 2)
+	Bound      int        // max number of non-zero choices; <0 = full product
+	Workers    int        // goroutines; 0 = GOMAXPROCS
+	Deadline   time.Time  // zero = none; on expiry exploration stops, Exhaustive=false
+	NewLocal   func() any // per-worker scratch
+	MaxFails   int        // stop collecting after this many violating vectors (default 200)
+	SplitDepth int        // prefixes up to this length are handed to other workers (default 2)
 }
 
 // Violation is a violating vector.
